@@ -159,7 +159,7 @@ def check(case):
 
     def run(model, reuse=False):
         # reuse: run with the simulator object that ran this model before (W creates a new WNTRSimulator every time)
-        r_ = S.run_wntr(model, hw_approx=hw, tol=1e-8, sim=sims.get(id(model)) if reuse else None)
+        r_ = S.run_wntr(model, hw_approx=hw, tol=1e-8, maxiter=1500, sim=sims.get(id(model)) if reuse else None)
         sims[id(model)] = r_.sim
         return r_
 
@@ -245,7 +245,7 @@ def check(case):
         res = CMP.compare(sp, case['rules'], ref, r, what=label)
         if res is not None and res[0] == 'fail' and not res[1].startswith('index/'):
             # judge the difference against what two executions of the very same fresh model differ by themselves
-            nz = S.run_wntr(c10.build(case), hw_approx=hw, tol=2.5e-9)
+            nz = S.run_wntr(c10.build(case), hw_approx=hw, tol=2.5e-9, maxiter=1500)
             if nz.exception is not None or not nz.ok:
                 res = ('inconclusive', 'the first run is not reproducible under a solver-tolerance perturbation')
             else:
